@@ -1424,6 +1424,11 @@ XP19_KINDS = {"polyexact": run_polyexact, "apriori": run_apriori}
 
 def gen(rng, tier):
     n = {"quick": 1.0, "thorough": 10.0, "search": 1.5}.get(tier, 1.0)
+    # xp19 extension: cheap (about 2 s for all of them), so they run first and are never cut by the wall budget; their inputs come from
+    # a generator forked off a *copy* of `rng`, so the stream every other kind draws from is unchanged
+    xr = random.Random()
+    xr.setstate(rng.getstate())
+    yield from gen_xp19(random.Random(f"xp19:{xr.getrandbits(64)}"), tier)
     for where in ("below", "at", "above"):
         yield {"kind": "big", "where": where, "sub": rng.randrange(1 << 30)}
     for where in ("below", "at", "above"):
@@ -1442,7 +1447,6 @@ def gen(rng, tier):
     for _ in range(int(9 * n)):
         yield {"kind": "big", "where": rng.choice(["below", "at", "above"]), "sub": rng.randrange(1 << 30)}
     yield from gen_heff(rng, tier)   # x19 extension (drawn after everything else: the earlier stream is unchanged)
-    yield from gen_xp19(rng, tier)   # xp19 extension (again drawn last)
 
 
 def run(inp):
